@@ -18,6 +18,10 @@ B `alias-decorated`  -- "attributes, text, repeaters and the self-closing mark w
                         definition (its deepest element), a repeater is written as `(definition)*N` ("the definition
                         in its place").  Shapes for which the textual spelling is not the statement's meaning are
                         skipped and counted as trivial (see `spell()`).
+B `alias-after-history` -- sentence 1 again, *after earlier calls*: calls that raise inside nested snippet resolution (complete over
+                        the alias chains of the built-in tables), at top level, in the parser; and calls that succeed with decorated
+                        snippet-backed elements; then every built-in name must still expand like its definition (also with one
+                        `cache` dict shared by all calls).
 B `user-tables`      -- random user snippet tables of 1..5 snippets (definitions over the user names themselves -- so self
                         and mutual references occur --, fresh names and the built-ins a / img / inp): (1) every
                         expansion returns within 5 s of CPU time and raises nothing (in particular no RecursionError); (2) the
@@ -447,6 +451,97 @@ def gen_user_cases(seed, n):
         yield t, abbrs
 
 
+# ------------------------------------------------------------------------------------------------ after a history
+def table_refs(defn, table):
+    "names of `table` used as element names in the definition text (own analysis)"
+    import re
+    flat = re.sub(r'\[[^\]]*\]|\{[^}]*\}', '', defn)
+    out = set()
+    for tok in re.split(r'[>+^()]', flat):
+        m = re.match(r'[A-Za-z!][\w:!-]*', tok.strip())
+        if m and m.group(0) in table:
+            out.add(m.group(0))
+    return out
+
+
+def chains(syntax):
+    "[(name, sorted other names reachable from its definition)] for the table of a syntax"
+    table = definitions(syntax)
+    res = []
+    for n in sorted(table):
+        seen, todo = set(), [n]
+        while todo:
+            for r in sorted(table_refs(table[todo.pop()], table)):
+                if r != n and r not in seen:
+                    seen.add(r)
+                    todo.append(r)
+        if seen:
+            res.append((n, sorted(seen)))
+    return res
+
+
+MALFORMED = 'zz["'          # unclosed quote: the parser's own TokenScannerException
+FIXED_HISTORIES = [
+    # raises inside nested resolution (alias chain goes through a malformed user snippet)
+    [['input:email', {'snippets': {'inp': "input[name='${1}]"}}]],
+    [['link:css', {'snippets': {'link': 'link[a="]'}}]],
+    [['meta:edge>b', {'snippets': {'meta': MALFORMED}}], ['!', {'snippets': {'meta:vp': MALFORMED}}]],
+    [['ri:a+src:mt', {'snippets': {'source': MALFORMED, 'img': MALFORMED}}]],
+    [['ul>li*2>input:t', {'snippets': {'input': MALFORMED}, 'text': ['a', 'b']}]],
+    # raises at the top level of resolution / in the parser / in the tokenizer
+    [['x', {'snippets': {'x': MALFORMED}}], ['a[b="c', {}], ['a)', {}]],
+    # succeeds: snippet-backed elements with children, attributes, text, repeaters
+    [['doc>p', {}], ['a.x', {}], ['a[href=u title]{t}>b', {}]],
+    [['!>p', {}], ['ul>li*2>a.k{t}', {}], ['input:email#i*2', {}], ['link:css[media=print]/', {}]],
+    [['btn:s{go}>b', {'options': {'output.reverseAttributes': True}}], ['img.k/', {'syntax': 'jsx'}], ['ri:a>b', {'syntax': 'pug'}]],
+]
+
+
+def check_alias_after(history, syntax, names, share_cache):
+    """run the history (every exception swallowed), then every name must still expand like its definition; with
+    share_cache one `cache` dict is passed to every call of the case (history and comparisons)"""
+    from emmet import expand
+    cache = {} if share_cache else None
+
+    def cfg(extra):
+        c = {'type': 'markup', 'syntax': syntax}
+        c.update(json.loads(json.dumps(extra)))
+        if cache is not None:
+            c['cache'] = cache
+        return c
+
+    for abbr, extra in history:
+        try:
+            expand(abbr, cfg(extra))
+        except Exception:
+            pass
+    defs = definitions(syntax)
+    for name in names:
+        a = expand(name, cfg({}))
+        b = expand(defs[name], cfg({}))
+        if a != b:
+            return 'syntax %s, after the calls %s%s: expand(%r) = %r but expand(definition %r) = %r' % (
+                syntax, '; '.join('expand(%r, %s)' % (x, json.dumps(e, sort_keys=True)) for x, e in history),
+                ' (one cache dict shared by all calls)' if share_cache else '', name, a, defs[name], b)
+    return None
+
+
+def gen_after_cases():
+    # complete over the alias chains of the built-in tables: the call that raises inside nested resolution, then the names
+    # of that chain
+    for syntax in ('html', 'xsl', 'pug'):
+        for n, reach in chains(syntax):
+            for k in reach:
+                yield [[n, {'snippets': {k: MALFORMED}}]], syntax, [n] + reach, False
+    # fixed histories, then every name of the table, 30 per case; without and with one shared cache dict
+    for syntax in ('html', 'xsl', 'pug'):
+        names = sorted(definitions(syntax))
+        for h in FIXED_HISTORIES:
+            for share in (False, True):
+                for i in range(0, len(names), 30):
+                    yield h, syntax, names[i:i + 30], share
+
+
 # ------------------------------------------------------------------------------------------------ run
 def run(tier, seed):
     quick = tier == 'quick'
@@ -480,6 +575,16 @@ def run(tier, seed):
                'alias form vs definition spelled out; cases whose definition shape cannot be spelled out textually (see spell()) are trivial',
                exhaustive=False)
     _run_decorated(c, dcases)
+    out.append(c.done())
+
+    acases = list(gen_after_cases())
+    c = Clause('alias-after-history', 'B', 'earlier calls, then alias vs definition: (1) for every built-in alias N (html, xsl, pug tables) whose definition reaches '
+               'another built-in name K: expand(N) with K redefined by a malformed user snippet (raises inside nested resolution), then N and '
+               'every name on its chains; (2) %d fixed histories (raising inside nested resolution, at top level, in parser / tokenizer; '
+               'succeeding with children / attributes / text / repeaters on snippet-backed elements) x every built-in name, without and with '
+               'one cache dict shared by all calls' % len(FIXED_HISTORIES), '%d cases (a case = history + up to 30 names)' % len(acases),
+               'after the history every name must expand like its definition (default options); distinct by history + names', exhaustive=False)
+    run_parallel(c, 'bounded.c14', 'check_alias_after', acases, chunk=8)
     out.append(c.done())
 
     ucases = list(gen_user_cases(seed, 1000 if quick else 30000))
